@@ -128,3 +128,9 @@ Definition x_C12_transport (c : val) : val :=
   let t0 := {| t_mode := dec_mode (as_int (nthv 0 c)); t_type := dec_type (as_int (nthv 1 c)) |} in
   let '(t, err) := parse_transport t0 (as_bytes (nthv 2 c)) in
   VL [VI (enc_mode (t_mode t)); VI (enc_type (t_type t)); vbool err].
+
+(* oracle on (case observed) of the parse_transport stream: the implementation's verdict is the
+   order-independent specification's (theorem C12_transport_error_is_spec says the model's is) *)
+Definition x_C12_transport_ok (v : val) : val :=
+  let c := nthv 0 v in let obs := nthv 1 v in
+  vbool (Bool.eqb (as_bool (nthv 2 obs)) (transport_invalid (as_bytes (nthv 2 c)))).
